@@ -341,16 +341,16 @@ class Impl:
             pt, kw = self._move_args(args)
             line = self._with_h(line, pt, op.endswith("abs"))
             fn = {"move": g.move, "rapid": g.rapid, "moveabs": g.move_absolute, "rapidabs": g.rapid_absolute}[op]
-            fn(**pt, **kw)
+            fn(*self._spell(pt), **pt, **kw)
         elif op == "setaxis":
             pt, kw = self._move_args(args)
-            g.set_axis(**pt, **kw)
+            g.set_axis(*self._spell(pt), **pt, **kw)
         elif op == "home":
             pt, kw = self._move_args(args)
-            g.auto_home(**pt, **kw)
+            g.auto_home(*self._spell(pt), **pt, **kw)
         elif op == "probe":
             pt, kw = self._move_args(args[1:])
-            g.probe(args[0], **pt, **kw)
+            g.probe(args[0], *self._spell(pt), **pt, **kw)
         elif op == "dist":
             g.set_distance_mode({"rel": "relative", "abs": "absolute"}.get(args[0], args[0]))
         elif op == "enter":
@@ -486,6 +486,23 @@ class Impl:
         return line
 
     _alt_flip = 0
+
+    def _spell(self, pt):
+        """The target of a move is given `as a Point object or as individual x, y, z coordinates`: every fourth call passes
+        it as a point, every eighth call as a point *and* keyword coordinates (the point is the target; by the documented
+        contract of `_process_move_params` the keyword coordinates are then replaced by the point's).  Returns the
+        positional arguments; `pt` is emptied or refilled with the decoy keywords in place."""
+        self._spell_n = getattr(self, "_spell_n", 0) + 1
+        if self._spell_n % 4 != 0:
+            return ()
+        from gscrib.geometry import Point
+        target = Point(pt.get("x"), pt.get("y"), pt.get("z"))
+        decoy = self._spell_n % 8 == 0
+        axes = list(pt) if decoy else []
+        pt.clear()
+        for a in axes:
+            pt[a] = 777.25
+        return (target,)
 
     def _alt(self):
         # alternate between the convenience wrappers (pause/stop/wait) and halt(mode)
